@@ -178,7 +178,8 @@ impl Wait for YieldingWait {
         }
         loop {
             yield_now();
-            for _ in 0..self.spins_yield {
+            // look at least once per yield, also when spins_yield is zero
+            for _ in 0..self.spins_yield.max(1) {
                 if check(seq, w_pos, wc) {
                     return;
                 }
